@@ -1,16 +1,16 @@
 CONSTANTS
   Node = {a, b, c}
   InitVoters = {a, b, c}
-  Value = {x, y, z}
+  Value = {x, y, z, u}
   Nil = Nil
-  MaxTerm = 4
-  MaxLog = 6
-  MaxTimer = 10
-  MaxAE = 10
-  MaxClient = 3
-  MaxCrash = 0
-  MaxHalf = 2
-  MaxSnap = 0
+  MaxTerm = 3
+  MaxLog = 8
+  MaxTimer = 7
+  MaxAE = 14
+  MaxClient = 4
+  MaxCrash = 1
+  MaxHalf = 1
+  MaxSnap = 3
   SnapSize = 1
   AsyncKinds = {}
   MaxNet = 0
